@@ -1,7 +1,8 @@
 // Stages of the sqlite harness.
-//   plan    real differ + planner on spec-built graphs  vs  PlanModel (change list, statement/reverse skeleton)
-//   engine  real go-sqlite3 executing Atlas' SQL         vs  EngineModel/InspectModel (inspect before/after, rows)
-//           + the C01 oracle on the real observations
+//
+//	plan    real differ + planner on spec-built graphs  vs  PlanModel (change list, statement/reverse skeleton)
+//	engine  real go-sqlite3 executing Atlas' SQL         vs  EngineModel/InspectModel (inspect before/after, rows)
+//	        + the C01 oracle on the real observations
 package main
 
 import (
@@ -340,12 +341,12 @@ func simpleDefaults(s Schema) bool {
 }
 
 type engineOpts struct {
-	inspected  bool // the desired state is the InspectSchema of a real database created from the spec (numeric fk symbols, ...), not a graph built from the spec
-	updown     bool // after the up run, execute the reverse statements of a reversible plan (mode updown)
-	file, fk   bool
-	rows       []rowSpec
-	withModel  bool // write a model case (else oracle only)
-	viaAtlas   bool // create A through Atlas' own plan from the empty schema (no uniques then)
+	inspected         bool // the desired state is the InspectSchema of a real database created from the spec (numeric fk symbols, ...), not a graph built from the spec
+	updown            bool // after the up run, execute the reverse statements of a reversible plan (mode updown)
+	file, fk          bool
+	rows              []rowSpec
+	withModel         bool // write a model case (else oracle only)
+	viaAtlas          bool // create A through Atlas' own plan from the empty schema (no uniques then)
 	viaAtlasInspected bool // ... and the desired state of that first apply is the inspected form of A (numeric fk symbols become constraint names)
 }
 
